@@ -420,7 +420,6 @@ EbErrorType dec_system_resource_init(EbDecHandle *dec_handle_ptr, TilesInfo *til
             dec_handle_ptr->thread_ctxt_pa[i].dec_mod_ctxt = dec_mod_ctxt_arr[i];
         }
     }
-    free(dec_mod_ctxt_arr);
     return return_error;
 }
 
